@@ -16,7 +16,8 @@ RULE = ("Files from per-format grammars (two-line and wrapped FASTA, FASTQ, BED3
         "Exhaustive core: every sequence of 1..n records whose variable fields all have a width from a small set, every k from 1 to size+2 "
         "and every combination of the four flags. Sampled remainder: Hypothesis files of up to 60 records with k biased to divisors of "
         "the file size, record sizes +-1 and record boundaries. Oracle: rows of all delivered chunks concatenated == rows of read() of the "
-        "same bytes; no empty chunk delivered; raising is allowed only when k is smaller than the longest record. "
+        "same bytes; no empty chunk delivered; raising is allowed only when k is smaller than the longest record; for a third of the chunk sizes "
+        "that give 3 to 5 chunks, np.concatenate of the (untouched) chunk tables must also have the rows of read(). "
         "Non-trivial: k < file size (at least two raw reads). Distinct: by the whole case.")
 ASSUMPTIONS = [
     "Generated files are well formed by the format definitions; spellings are canonical so read() itself is not in question here (C02 checks it).",
@@ -158,6 +159,15 @@ def check(case, stats=None):
                                                    "diff": formats.first_row_diff(whole, rows, 0), "chunk_sizes": sizes}))
     if any(s == 0 for s in sizes):
         out.append(Failure(f"C01:empty-chunk:{tag}", {"chunk_sizes": sizes}))
+    if not out and 3 <= len(sizes) <= 5 and case["k"] % 3 == 0 and not case.get("via_path"):
+        # the chunks joined by the library itself (np.concatenate of the chunk tables, untouched before) must be the whole read too
+        try:
+            import numpy as np
+            joined = formats.table_rows(np.concatenate(list(_reader(data, case, fmt).read_chunks(min_chunk_size=case["k"]))))
+        except Exception as e:
+            return [Failure(f"C01:np-concatenate-of-chunks-raised:{tag}:{type(e).__name__}", {"error": repr(e)[:300], "k": case["k"], "chunk_sizes": sizes})]
+        if not formats.rows_equal(whole, joined, ulps=0):
+            out.append(Failure(f"C01:np-concatenate-of-chunks-differs:{tag}", {"k": case["k"], "chunk_sizes": sizes, "diff": formats.first_row_diff(whole, joined, 0)}))
     return out
 
 
